@@ -24,6 +24,7 @@ import vlib
 LEVEL = "proof"
 MODULE = "Sqfs.Props.C08"
 REQUIRED = ["Sqfs.C08.bw_no_error", "Sqfs.C08.bw_readback", "Sqfs.C08.bw_share_sound", "Sqfs.C08.bw_share_complete",
+            "Sqfs.C08.bw_refines_spec", "Sqfs.C08.bw_checksum_irrelevant",
             "Sqfs.C08.frag_no_error", "Sqfs.C08.frag_sound", "Sqfs.C08.frag_share", "Sqfs.C08.frag_lookup_unique"]
 
 F_DONT_COMPRESS, F_DONT_HASH, F_DONT_FRAGMENT, F_DONT_DEDUP, F_IGNORE_SPARSE = 1, 2, 4, 8, 0x10
@@ -101,7 +102,8 @@ def gen_bw_script(rng, small=True):
             elif r < 0.5:
                 k = rng.randrange(len(blocks))
                 b = bytearray(blocks[k][1]); b[rng.randrange(len(b))] ^= 1 << rng.randrange(8)
-                blocks[k] = (blocks[k][0], bytes(b), blocks[k][2])       # same checksum, different bytes
+                # arbitrary-checksum scripts: same checksum, different bytes; honest scripts: the checksum stays a function of the data
+                blocks[k] = (chk(bytes(b)) if honest else blocks[k][0], bytes(b), blocks[k][2])
         else:
             nb = rng.choice([1, 1, 2, 2, 3, 4, 6])
             blocks = []
@@ -125,7 +127,7 @@ def gen_bw_script(rng, small=True):
             if k == len(items) - 1:
                 fl |= F_LAST
             calls.append((c, fl, b))
-    return pre, calls
+    return pre, calls, honest
 
 
 def bw_script_lines(pre, calls, wrflags=0):
@@ -170,9 +172,12 @@ def check_bw(ctx, harness, n_scripts, stats):
         for p in sorted(cdir.glob("bw-*.json")):
             d = json.loads(p.read_text())
             scripts.append((untok(d["pre"]), [(int(c, 16), int(f, 16), untok(b)) for c, f, b in d["calls"]], "corpus:" + p.name))
+    honest_scripts = []
     for i in range(n_scripts):
-        pre, calls = gen_bw_script(ctx.rng, small=ctx.quick() or i % 4 != 0)
+        pre, calls, honest = gen_bw_script(ctx.rng, small=ctx.quick() or i % 4 != 0)
         scripts.append((pre, calls, "gen:%d" % i))
+        if honest:
+            honest_scripts.append(len(scripts) - 1)
     all_lines, spans = [], []
     for pre, calls, name in scripts:
         ls = bw_script_lines(pre, calls)
@@ -190,6 +195,25 @@ def check_bw(ctx, harness, n_scripts, stats):
                       {"mode": "bw", "lines": bw_script_lines(pre, calls), "stderr": err})
         return
     model = ctx.driver(["c08"], text)
+    # the checksum-free specification (Spec.BlockWriter.specRun, theorem bw_refines_spec) against the real code, on the
+    # scripts whose checksums are a function of the data
+    sp_lines, sp_spans = [], []
+    for k in honest_scripts:
+        pre, calls, name = scripts[k]
+        ls = ["sp-init " + tok(pre)] + ["sp-write %x %s" % (fl, tok(b)) for (c, fl, b) in calls]
+        sp_spans.append((k, len(sp_lines), len(ls)))
+        sp_lines += ls
+    sp_out = ctx.driver(["c08"], "\n".join(sp_lines) + "\n") if sp_lines else []
+    for k, a0, n0 in sp_spans:
+        a, n = spans[k]
+        if sp_out[a0 + 1:a0 + n0] != impl[a + 1:a + n - 1]:
+            d = vlib.diff_streams(sp_out[a0 + 1:a0 + n0], impl[a + 1:a + n - 1])[0]
+            stats["disagreements"] += 1
+            ctx.violation("bw-spec:" + vlib.sha(json.dumps(all_lines[a:a + n]))[:12],
+                          "block writer differs from the checksum-free specification at call %d of script %s (impl=%s spec=%s)" % (
+                              d, scripts[k][2], impl[a + 1 + d] if a + 1 + d < a + n - 1 else None, sp_out[a0 + 1 + d] if d < n0 - 1 else None),
+                          {"mode": "bw", "lines": all_lines[a:a + n], "spec": sp_out[a0:a0 + n0]}, found_input=False)
+        stats["bw_spec_scripts"] += 1
     for (a, n), (pre, calls, name) in zip(spans, scripts):
         il, ml = impl[a:a + n], model[a:a + n]
         final = untok(il[-1].split()[1]) if il[-1].startswith("file ") else b""
